@@ -358,7 +358,7 @@ import base64 as _b64
 import struct as _struct
 import zlib as _zlib
 
-CLOSED_OK = False  # closed records: re-enable once the silent-rejection defect of `false` subschemas (C08-false) is fixed
+CLOSED_OK = True  # closed records (additionalProperties: false): the silent-rejection defect C08-false is fixed (fbca339)
 RSTRS = ["", "x", "hello", "a b", "us-west-2", "tok3n"]
 
 
